@@ -52,8 +52,20 @@ func c19Capture(what string, f func()) (panicClass string) {
 	return ""
 }
 
+// c19Extra holds the other modules of the program under test (corpus files import one another).
+var c19Extra map[string]string
+
+func c19Mods(text string) map[string]string {
+	m := map[string]string{}
+	for k, v := range c19Extra {
+		m[k] = v
+	}
+	m["main"] = text
+	return m
+}
+
 func c19Oracle(text string, tags []string, r *Result) {
-	a := Analyze(map[string]string{"main": text}, true)
+	a := Analyze(c19Mods(text), true)
 	if a.Obs.Class == "HOST-PANIC" || !a.Obs.Accepted() {
 		r.Note("original-not-accepted", 1)
 		return
@@ -87,7 +99,7 @@ func c19Oracle(text string, tags []string, r *Result) {
 		return x.Key() == o0.Key()
 	}
 	check := func(stage, printed string) {
-		a1 := Analyze(map[string]string{"main": printed}, true)
+		a1 := Analyze(c19Mods(printed), true)
 		r.Trans(1)
 		if a1.Obs.Class == "HOST-PANIC" {
 			r.Fail("ROUNDTRIP:"+stage+":printed text panics the analyzer", tags, text, "printed:\n"+printed+"\n"+a1.Obs.String())
@@ -138,7 +150,7 @@ func c19Oracle(text string, tags []string, r *Result) {
 	} else {
 		check("analysed-print", t2)
 		var t2b string
-		a2 := Analyze(map[string]string{"main": t2}, true)
+		a2 := Analyze(c19Mods(t2), true)
 		if a2.Obs.Accepted() && a2.Obs.Class != "HOST-PANIC" {
 			if pc := c19Capture("AnalyzedProgram.String", func() { t2b = a2.Mods["main"].String() }); pc == "" && t2b != t2 {
 				r.Fail("ROUNDTRIP:analysed-print:not a fixed point after one round", tags, text, fmt.Sprintf("first print:\n%s\nsecond print:\n%s", t2, t2b))
@@ -192,6 +204,31 @@ func init() {
 				tags = append(tags, "vm-only")
 			}
 			c19Oracle(e.text, tags, r)
+		}})
+		// every program shipped with the repository (examples/, tests/), importing the others
+		c.Scenarios = append(c.Scenarios, Scenario{Name: "repository-programs", Count: func(string) int { return len(corpus()) }, Run: func(_ string, idx int, r *Result) {
+			c05InitCorpus()
+			f := corpus()[idx]
+			self := strings.TrimSuffix(f.Name[strings.LastIndex(f.Name, "/")+1:], ".hms")
+			c19Extra = map[string]string{}
+			for k, v := range c05CorpusMods {
+				if k != self && k != "main" {
+					c19Extra[k] = v
+				}
+			}
+			defer func() { c19Extra = nil }()
+			tags := []string{"file:" + f.Name}
+			if strings.Contains(f.Text, "time.now") {
+				r.Note("repository-program-reads-the-clock(skipped)", 1)
+				return
+			}
+			if strings.Contains(f.Text, "spawn ") {
+				tags = append(tags, "spawn")
+			}
+			if strings.Contains(f.Text, "trigger ") {
+				tags = append(tags, "vm-only")
+			}
+			c19Oracle(f.Text, tags, r)
 		}})
 		c.Scenarios = append(c.Scenarios, Scenario{Name: "discarded-expression-statements", Count: func(string) int { return c19DiscardedCount() }, Run: func(_ string, idx int, r *Result) { c19DiscardedRun(idx, r) }})
 		c.Scenarios = append(c.Scenarios, Scenario{Name: "statement-boundaries", Count: func(string) int { return c19BoundaryCount() }, Run: func(_ string, idx int, r *Result) { c19BoundaryRun(idx, r) }})
